@@ -8,6 +8,7 @@ open Coba.C14
 def errName : Err → String
   | .typeError => "TypeError" | .indexError => "IndexError"
   | .zeroDivision => "ZeroDivisionError" | .outOfModel => "OutOfModel"
+  | .upstream => "Upstream" | .keyError => "KeyError" | .valueError => "ValueError"
 
 def parseVal (j : Json) : Except String Val := do
   match j.getObjVal? "s" with
@@ -56,7 +57,44 @@ def outToJson {χ : Type} (ctx : χ → Json) (probes : List Action) : Except Er
            ("on_actions", ofList (fun a => resToJson (x.reward.eval (.one a))) x.actions),
            ("on_probes", ofList (fun a => resToJson (x.reward.eval a)) probes)]) ints)]
 
-/-- request: {"op":"pairs"|"dense"|"sparse", "given":…, "take":[positions]|null, "rows":…, "probes":[actions]} -/
+def parseStep (j : Json) : Except String C09.Step := do
+  match j with
+  | .arr #[a, b] => pure (.skip (← nat a) (← nat b))
+  | _ => pure (.raise .zeroDivision)
+
+def textOf (s : String) : C12.Text := s.toList.map Char.toNat
+
+def textJson (t : C12.Text) : Json := Json.str (textStr t)
+
+def parseLabelCol (j : Json) : Except String LabelCol := do
+  match j.getObjVal? "i" with
+  | .ok v => pure (.index (← int v))
+  | .error _ => pure (.name (textOf (← str (← field j "name"))))
+
+/-- text requests: the model reads the text itself (C12 reader model) before LabelRows / read -/
+def handleText (op : String) (req : Json) (given : Option LType) (probes : List Action) : Except String Json := do
+  match op with
+  | "csv_text" =>
+    let lines := (← strList (← field req "lines")).map textOf
+    let delim ← nat (← field req "delim")
+    let hdr ← bool (← field req "header")
+    let lc ← parseLabelCol (← field req "label")
+    pure (obj [("model", outToJson (ofList labelToJson) probes (csvSim delim hdr lc given lines))])
+  | "svm_text" =>
+    let lines := (← strList (← field req "lines")).map textOf
+    let manik ← bool (← field req "manik")
+    let ctx := ofList (fun (kv : C12.Text × C12.Text) => Json.arr #[textJson kv.1, textJson kv.2])
+    pure (obj [("model", outToJson ctx probes (if manik then manikSim given lines else libsvmSim given lines))])
+  | "arff_text" =>
+    let attrs := (← strList (← field req "attr_lines")).map textOf
+    let data := (← strList (← field req "data_lines")).map textOf
+    let lc ← parseLabelCol (← field req "label")
+    pure (obj [("model", outToJson (ofList labelToJson) probes (arffDenseSim lc given attrs data))])
+  | _ => throw s!"unknown op {op}"
+
+/-- request: {"op":"pairs"|"dense"|"sparse", "given":…, "take":[positions]|null, "rows":…, "probes":[actions]};
+`"res":{"k":n,"steps":[[S,slot]…]}` instead of `take`: the model runs the C09 reservoir itself;
+{"op":"csv_text"|"svm_text"|"arff_text", …}: the model parses the text with the C12 reader model -/
 def handle (req : Json) : Except String Json := do
   let op ← str (← field req "op")
   let given0 ← parseType (fieldD req "given" Json.null)
@@ -64,6 +102,11 @@ def handle (req : Json) : Except String Json := do
   let given := resolveGiven given0 tipe
   let take ← opt natList (fieldD req "take" Json.null)
   let probes ← (← arr (fieldD req "probes" (Json.arr #[]))).mapM parseAction
+  if op.endsWith "_text" then return ← handleText op req given probes
+  let res ← opt (fun j => do
+      let k ← nat (← field j "k")
+      let steps ← (← arr (← field j "steps")).mapM parseStep
+      pure (k, steps)) (fieldD req "res" Json.null)
   let rows ← arr (← field req "rows")
   match op with
   | "pairs" =>
@@ -71,11 +114,13 @@ def handle (req : Json) : Except String Json := do
       match (← arr r) with
       | [c, l] => pure (c, ← parseLabel l)
       | _ => throw "pair expected")
-    pure (obj [("model", outToJson (fun (c : Json) => c) probes (simPairs given take prs))])
+    pure (obj [("model", outToJson (fun (c : Json) => c) probes
+      (match res with | some (k, steps) => simPairsS given k steps prs | none => simPairs given take prs))])
   | "dense" =>
     let ind ← int (← field req "ind")
     let rs ← rows.mapM (fun r => do (← arr r).mapM parseLabel)
-    pure (obj [("model", outToJson (ofList labelToJson) probes (simDense given take ind rs))])
+    pure (obj [("model", outToJson (ofList labelToJson) probes
+      (match res with | some (k, steps) => simDenseS given k steps ind rs | none => simDense given take ind rs))])
   | "sparse" =>
     let key ← parseVal (← field req "key")
     let rs ← rows.mapM (fun r => do (← arr r).mapM (fun kv => do
@@ -83,7 +128,7 @@ def handle (req : Json) : Except String Json := do
       | [k, v] => pure (← parseVal k, ← parseLabel v)
       | _ => throw "key/value pair expected"))
     pure (obj [("model", outToJson (ofList (fun (kv : Val × Label) => Json.arr #[valToJson kv.1, labelToJson kv.2])) probes
-      (simSparse given take key rs))])
+      (match res with | some (k, steps) => simSparseS given k steps key rs | none => simSparse given take key rs))])
   | _ => throw s!"unknown op {op}"
 
 end Coba.C14.Driver
